@@ -22,7 +22,15 @@ func NewLinearHist(min, max float64, nbins int) *LinearHist {
 }
 
 func (h *LinearHist) bin(x float64) int {
-	return int(math.Floor(h.delta * (x - h.min)))
+	// Clamp before converting: the conversion to int is not
+	// meaningful for values far outside the range.
+	bin := math.Floor(h.delta * (x - h.min))
+	if bin < 0 {
+		return -1
+	} else if bin >= float64(len(h.bins)) {
+		return len(h.bins)
+	}
+	return int(bin)
 }
 
 func (h *LinearHist) Add(x float64) {
